@@ -884,8 +884,15 @@ def hm_eq(ctx, args, ci, dt):
 
 # ------------------------------------------------------------------------------ serde_json over atom rows
 
+def jv(kind, payload=None):
+    """a serde_json::Value tree node built by a driver: kind in obj/arr/int/bool/str/null"""
+    return Opaque('jv', (kind, payload))
+
+
 def json_from_str(ctx, args, ci, dt):
     s = deref(args[0])
+    if s.label is not None and s.label[0] == 'jsontree':
+        return ok(s.label[1])
     if s.lit is not None:
         raise ctx_unsupported('json from concrete text (not needed so far)')
     a = s.as_atom()
@@ -914,6 +921,9 @@ def json_quote_seq(ctx, v):
 
 def json_as_object(ctx, args, ci, dt):
     v = deref(args[0])
+    if v.tag == 'jv':
+        kind, payload = v.data
+        return some(Ref(Cell(Opaque('jvmap', payload)))) if kind == 'obj' else none()
     if v.tag == 'json':
         if ctx.branch(JSON_IS_OBJ(v.data)):
             return some(Ref(Cell(Opaque('jsonmap', v.data))))
@@ -924,14 +934,35 @@ def json_as_object(ctx, args, ci, dt):
 def json_map_get(ctx, args, ci, dt):
     m = deref(args[0])
     k = deref(args[1])
+    if m.tag == 'jvmap':
+        if k.lit is None:
+            raise ctx_unsupported('json map lookup with a symbolic key')
+        c = m.data.get(k.lit.decode())
+        return some(Ref(c)) if c is not None else none()
     ka = k.as_atom()
     if ctx.branch(JSON_HAS(m.data, ka)):
         return some(Ref(Cell(Opaque('jsonfield', (m.data, ka)))))
     return none()
 
 
+def json_as_array(ctx, args, ci, dt):
+    v = deref(args[0])
+    if v.tag == 'jv' and v.data[0] == 'arr':
+        return some(Ref(Cell(v.data[1])))
+    return none()
+
+
+def json_as_i64(ctx, args, ci, dt):
+    v = deref(args[0])
+    if v.tag == 'jv' and v.data[0] == 'int':
+        return some(v.data[1])
+    return none()
+
+
 def json_as_str(ctx, args, ci, dt):
     v = deref(args[0])
+    if v.tag == 'jv':
+        return some(v.data[1]) if v.data[0] == 'str' else none()
     if v.tag == 'jsonfield':
         a, k = v.data
         if ctx.branch(JSON_IS_STR(a, k)):
@@ -941,6 +972,8 @@ def json_as_str(ctx, args, ci, dt):
 
 def json_as_bool(ctx, args, ci, dt):
     v = deref(args[0])
+    if v.tag == 'jv':
+        return some(v.data[1]) if v.data[0] == 'bool' else none()
     if v.tag == 'jsonfield':
         a, k = v.data
         if ctx.branch(JSON_IS_BOOL(a, k)):
@@ -1441,6 +1474,24 @@ def atomic_load(ctx, args, ci, dt):
     return a
 
 
+def bytes_try_into(ctx, args, ci, dt):
+    """<Vec<u8> / &[u8] as TryInto<[u8; N]>>::try_into: Ok exactly when the length is N"""
+    v = deref(args[0])
+    m = re.search(r'TryInto<\[u8; (\d+)\]>', ci.trait or '')
+    if not m:
+        m = re.search(r'\[u8; (\d+)\]', dt or '')
+    if not m:
+        raise ctx_unsupported('try_into target unknown: %s' % ci.raw)
+    n = int(m.group(1))
+    ln = s_len(v)
+    if isinstance(ln, int):
+        return ok(v) if ln == n else err(v)
+    cond = (ln == n) if not z3.is_bv(ln) else (ln == z3.BitVecVal(n, 64))
+    if ctx.branch(cond):
+        return ok(S(lit=v.lit, atom=v.atom, seq=v.seq, n=n))
+    return err(v)
+
+
 def m_panic(ctx, args, ci, dt):
     msg = args[0].lit.decode() if args and isinstance(args[0], S) and args[0].lit is not None else 'panic'
     raise panic(msg)
@@ -1639,6 +1690,8 @@ def install(ctx):
     M['Map::get'] = json_map_get
     M['Value::as_str'] = json_as_str
     M['Value::as_bool'] = json_as_bool
+    M['Value::as_array'] = json_as_array
+    M['Value::as_i64'] = json_as_i64
     M['Hasher::new'] = hasher_new
     M['Hasher::update'] = hasher_update
     M['Hasher::finalize'] = hasher_finalize
@@ -1687,6 +1740,8 @@ def install(ctx):
     M['<MutexGuard as Deref>::deref'] = guard_deref
     M['Atomic::load'] = atomic_load
     M['AtomicBool::load'] = atomic_load
+    M['<Vec as TryInto>::try_into'] = bytes_try_into
+    M['<&[] as TryInto>::try_into'] = bytes_try_into
     M['panic'] = m_panic
     M['panicking::panic'] = m_panic
     M['panic_fmt'] = m_panic_fmt
